@@ -294,17 +294,25 @@ func init() {
 				loaded := map[string]bool{}
 				if ri.Valid && ri.ReferValidStr != "" {
 					loaded[c18Rel(t.root, ri.ReferValidStr)] = true
+				} else {
+					loaded["-"] = true
 				}
 				defs, hovs := map[string]bool{}, map[string]bool{}
 				for rep := 0; rep < 6; rep++ {
 					list := stringutil.GetOpenFileStr([]byte(src), r.off, r.col, common.GConfig.GetFrameReferFiles())
+					found := false
 					for _, item := range list {
 						dv := project.FindOpenFileDefine(cur, item)
 						if len(dv) > 0 {
 							defs[c18Rel(t.root, dv[0].StrFile)] = true
 							hovs[hx([]byte(item))] = true
+							found = true
 							break
 						}
+					}
+					if !found {
+						defs["-"] = true
+						hovs["-"] = true
 					}
 				}
 				// do definition and analysis agree? (same single file, or neither has one)
